@@ -1,6 +1,7 @@
 import Swat4.Model.USys
 import Swat4.Lemmas.Prog
 import Swat4.Lemmas.Backed
+import Swat4.Lemmas.BackedSys
 /-!
 # C16 — No crash leaves a server waiting forever for a probe that does not exist
 
@@ -107,7 +108,7 @@ theorem probeRetry_backed (cs : List Choice) (prb : Probe) (svr : Server) (t : I
     BackedExcept (Prog.runChoices cs (UC.probeRetry prb svr) s now) prb.addr prb.goal := by
   refine ((probeRetry_good (fun _ => True) prb svr (E := fun a g => a = svr.addr ∧ Marked svr g) (R := fun x => x = prb.addr)
     hcanon rfl (by rw [hcanon]) (fun g hg => ⟨rfl, hg⟩)).runChoices_kinv (X := fun a' g' => a' = prb.addr ∧ g' = prb.goal)
-    cs s now ⟨hb, hk, ?_, ?_⟩).1
+    cs s now ⟨hb, hk, ?_, ?_, fun _ _ _ => trivial, fun _ _ => trivial⟩).1
   · rintro a g ⟨rfl, hm⟩
     exact hb _ _ g hrow hm
   · intro x hx row hr
@@ -166,7 +167,7 @@ theorem keyed_preserved (cs : List Choice) (now : Int) (s : AbsState) (hk : Keye
   have key : ∀ {α : Type} {p : Prog α} {R : Addr → Prop}, Good (fun _ => True) (fun _ _ => False) R p →
       (∀ a, R a → ∀ (row : SRow), s.servers[a.key]? = some row → row.svr.addr = a) → Keyed (p.runChoices cs s now) :=
     fun hp hR => (hp.runChoices_kinv (X := fun _ _ => True) cs s now
-      ⟨fun _ _ _ _ _ => Or.inl trivial, hk, fun _ _ hf => hf.elim, hR⟩).2
+      ⟨fun _ _ _ _ _ => Or.inl trivial, hk, fun _ _ hf => hf.elim, hR, fun _ _ _ => trivial, fun _ _ => trivial⟩).2
   refine ⟨fun z m r => key (report_good _ z m r trivial) (fun _ hf => hf.elim),
     fun z m a => key (addServer_good _ z m a trivial) (fun _ hf => hf.elim),
     fun prb outcome hc => key (probe_good _ prb outcome (R := fun x => x = prb.addr) rfl) (fun a ha row hr => by subst ha; exact hc row hr),
@@ -204,5 +205,30 @@ theorem C16_holder_counterexample :
 theorem C16_holder_completes (outcome : Option ProbeResult) (now : Int) :
     Backed ((UC.probe W.probe outcome).run W.state now).1 :=
   (probe_complete_backed W.probe outcome now W.state W.state_backedExcept W.state_keyed W.state_canon).1
+
+
+/-! ## interleaved -/
+
+/-- **C16 for every system without a popper.**  Clients are any programs of the reporter (heartbeat, keepalive,
+removal), the REST submission, the refresher, the reviver, the cleaners and the listing (`Client`: the use cases
+above, possibly after a clock read and followed by a rendering of the result), with valid addresses; the store
+starts backed, with every row under its own key and valid (`KeyedOk`).  Then after **any** event list — clients
+taking turns call by call, dying before or after their pending call took effect, calls failing with or without
+effect, clock ticks — every retry mark has a queued probe.  The proof rests on the monotonicity fact stated as the
+third conjunct: in such a system the queue only grows, so whatever a client enqueued before marking is still
+queued when its mark commits, however long the others ran in between.  (With a popper in the system this is
+false: `C16_holder_counterexample`, and the consumed-before-mark finding of the correspondence run.) -/
+theorem C16_interleaved (u : USys) (es : List UEv) (hb : Backed u.abs) (hk : KeyedOk u.abs)
+    (hc : ∀ c ∈ u.clients, Client c.prog) :
+    Backed (u.run es).abs ∧ KeyedOk (u.run es).abs ∧ ∀ q ∈ u.abs.queue, q ∈ (u.run es).abs.queue :=
+  sys_backed u es hb hk hc
+
+/-- non-vacuity: the empty store is backed and well keyed; the system model's reporter / submission clients are `Client`s -/
+example : Backed {} ∧ KeyedOk {} := ⟨fun k row g h => by simp at h, fun k row h => by simp at h⟩
+example (z : Fields) (m : Int) (req : ReportReq) (h : req.addr.PortOk) :
+    Client ((UC.report z m req).bind fun r => pure (match r with | .ok _ => "ok" | .error _ => "err")) :=
+  Client.map _ _ (Client.report z m req h)
+example (m iv : Int) : Client (Prog.call Call.now fun now => (UC.refresh m (now + iv)).bind fun r => pure (match r with | .ok _ => "ok" | .error _ => "err")) :=
+  Client.now _ (fun _ => Client.map _ _ (Client.refresh _ _))
 
 end Swat4.C16
